@@ -6,7 +6,7 @@ func init() {
 		Title: "Planning and responses are deterministic",
 		Kernels: []Kernel{
 			{Name: "map-orders", Pkg: ".", Files: []string{"root/fed.go", "root/c01.go", "root/c02.go", "root/c13.go"}, Entry: "VerifDeterminism", Mode: "seq", Native: true,
-				Quick: map[string]int{"k": 2, "maporder": 1}, Thorough: map[string]int{"k": 1, "maporder": 2},
+				Quick: map[string]int{"k": 2, "maporder": 1}, Thorough: map[string]int{"k": 1, "maporder": 2, "budget_s": 7200},
 				Reach: []string{"two runs compared"}, Functions: pipelineFns},
 			{Name: "batch-interleavings", Pkg: ".", Files: []string{"root/fed.go", "root/c01.go", "root/c08.go"}, Entry: "VerifBatch", Mode: "all", Race: true,
 				Quick: map[string]int{"rmax": 2, "classes": 15}, Thorough: map[string]int{"rmax": 2, "classes": 15},
@@ -17,7 +17,7 @@ func init() {
 			{Name: "children-order-interleavings", Pkg: "executor", Files: []string{"executor/c12.go"}, Entry: "VerifChildrenOrder", Mode: "all", Race: true,
 				Reach: []string{"children stitched", "children failed"}, Functions: []string{"executor.ParallelExecutor.Execute", "executor.(*DepthExecutorManager).Execute", "executor.(*DepthExecutorManager).merge", "executor.(*DepthExecutor).Execute", "executor.(*DepthExecutor).executeRequests", "executor.(*DepthExecutor).getVariables", "executor.(*DepthExecutor).parseRespones", "executor.FindInsertionPoints"}},
 			{Name: "repeat-mixed-introspection", Pkg: ".", Files: []string{"root/fed.go", "root/c01.go", "root/c14g.go"}, Entry: "VerifCacheGateway", Mode: "seq",
-				Quick: map[string]int{"hmax": 2, "mixedpool": 1, "maporder": 1}, Thorough: map[string]int{"hmax": 3, "mixedpool": 1, "maporder": 2},
+				Quick: map[string]int{"hmax": 2, "mixedpool": 1, "maporder": 1}, Thorough: map[string]int{"hmax": 3, "mixedpool": 1, "maporder": 1, "budget_s": 7200},
 				Reach: []string{"history through the gateway"}, Functions: []string{"(*Gateway).queryHandler", "(*Gateway).parseIntrospectionQuery", "planner.(*CachedPlanner).Plan", "planner.routeSelectionSet"}},
 			{Name: "repeat-with-cache", Pkg: ".", Files: []string{"root/fed.go", "root/c01.go", "root/c02.go", "root/c13.go"}, Entry: "VerifRepeatWithCache", Mode: "seq", Native: true,
 				Quick: map[string]int{"pairops": 26}, Thorough: map[string]int{"pairops": 0},
